@@ -454,6 +454,7 @@ type Contract struct {
 	ThoroughOnly bool // "tier thorough": the function's obligations are generated in the thorough tier only
 	AbsIdx    bool // quantify over absolute indices (change of variable) in this function's verification
 	AtCall    map[string][]*Clause // conditions that must hold whenever this function calls the named callee
+	AssumePre map[string]string    // "Callee" or "Callee.label" -> reason: that precondition is assumed (not checked) at this function's calls
 	GhostSets [][2]string // ghost assignments executed at every return: target ghost application, value expression
 }
 
@@ -721,6 +722,17 @@ func (sp *Specs) ParseSpecFile(path string, pkg string) error {
 				c.Label = fmt.Sprintf("at%d", len(cur.AtCall[callee]))
 			}
 			cur.AtCall[callee] = append(cur.AtCall[callee], c)
+		case "assumepre":
+			// assumepre Callee[.label]: reason   (a precondition of Callee is assumed, and reported as an assumption, at
+			// every call this function makes to it)
+			k := strings.Index(rest, ":")
+			if k < 0 {
+				return fmt.Errorf("%s:%d: assumepre needs 'Callee[.label]: reason'", path, l.n)
+			}
+			if cur.AssumePre == nil {
+				cur.AssumePre = map[string]string{}
+			}
+			cur.AssumePre[strings.TrimSpace(rest[:k])] = strings.TrimSpace(rest[k+1:])
 		case "ghostset":
 			// ghostset g(x) = expr      (ghost state only; executed at every return, before the postconditions)
 			k := strings.Index(rest, " = ")
